@@ -243,3 +243,34 @@ pub fn panic_site(loc: &str) -> String {
     }
     format!("{}", file)
 }
+
+/// Stopwatch for the "runs for seconds" oracles that does not fire because the machine is busy: `ms()` is the CPU time
+/// this thread has used (utime + stime of /proc/thread-self/stat, 10 ms ticks); a tenth of the wall-clock time is the
+/// backstop for code that blocks instead of computing.
+pub struct Stopwatch {
+    wall: std::time::Instant,
+    cpu0: Option<u128>,
+}
+
+fn thread_cpu_ms() -> Option<u128> {
+    let s = std::fs::read_to_string("/proc/thread-self/stat").ok()?;
+    // the command name (field 2) may contain spaces: fields are counted after the closing parenthesis
+    let rest = &s[s.rfind(')')? + 1..];
+    let f: Vec<&str> = rest.split_whitespace().collect();
+    let ut: u128 = f.get(11)?.parse().ok()?; // field 14
+    let st: u128 = f.get(12)?.parse().ok()?; // field 15
+    Some((ut + st) * 10)
+}
+
+impl Stopwatch {
+    pub fn start() -> Self {
+        Stopwatch { wall: std::time::Instant::now(), cpu0: thread_cpu_ms() }
+    }
+    pub fn ms(&self) -> u128 {
+        let wall = self.wall.elapsed().as_millis();
+        match (self.cpu0, thread_cpu_ms()) {
+            (Some(a), Some(b)) => b.saturating_sub(a).max(wall / 10).min(wall),
+            _ => wall,
+        }
+    }
+}
